@@ -47,8 +47,11 @@ TARGETS = [
 ]
 
 
-def build_metamodule(H, n, pfx="mm.", nested=False, raised_to=None):
+def build_metamodule(H, n, pfx="mm.", nested=False, raised_to=None, hole=False):
     m = MetaModule()
+    if hole:
+        # an empty position in front of the embedded modules (as in a loaded project with a deleted module)
+        m.project.attach_module(None)
     if raised_to is not None:
         # history: the count was higher before (labels and values were given to controllers that are
         # hidden again afterwards)
@@ -69,11 +72,13 @@ def build_metamodule(H, n, pfx="mm.", nested=False, raised_to=None):
         deep = build_metamodule(H, 2, pfx + "deep.", nested=False)
         inner.attach_module(deep)
     m.user_defined_controllers = n
+    shift = 1 if hole else 0
+    targets = [((mod + shift) if mod in (1, 2) else mod, ctl) for mod, ctl in TARGETS]
     for i in range(MetaModule.MappingArray.length):
-        if i < n and i < len(TARGETS):
-            m.mappings.values[i] = MetaModule.Mapping(TARGETS[i])
+        if i < n and i < len(targets):
+            m.mappings.values[i] = MetaModule.Mapping(targets[i])
         elif i < n:
-            m.mappings.values[i] = MetaModule.Mapping(TARGETS[i % 4])
+            m.mappings.values[i] = MetaModule.Mapping(targets[i % 4])
         else:
             m.mappings.values[i] = MetaModule.Mapping((H.int(f"{pfx}map{i}.module", 0, 0xFFFF), H.int(f"{pfx}map{i}.ctl", 0, 0xFFFF)))
     m.update_user_defined_controllers()
@@ -142,6 +147,8 @@ def _count_cases(tier):
             out.append((f"n={n},{ctx}", (n, ctx, False)))
     out.append(("nested,n=3,synth", (3, "synth", True)))
     out.append(("nested,n=3,project", (3, "project", True)))
+    out.append(("hole_before_targets,n=5,synth", (5, "synth", "hole")))
+    out.append(("hole_before_targets,n=5,project", (5, "project", "hole")))
     out.append(("lowered_6_to_2,synth", (2, "synth", "lowered")))
     out.append(("lowered_6_to_2,project", (2, "project", "lowered")))
     return out
@@ -157,6 +164,8 @@ def metamodule_roundtrip(H, case):
     n, ctx, nested = case
     if nested == "lowered":
         m = build_metamodule(H, n, raised_to=6)
+    elif nested == "hole":
+        m = build_metamodule(H, n, hole=True)
     else:
         m = build_metamodule(H, n, nested=nested)
     H.check("in_memory_exactly_first_n_exposed", [ud.attached(m) for ud in m.user_defined] == [i < n for i in range(96)])
@@ -186,7 +195,7 @@ def _binding_cases(tier):
     return [("n=3,synth", (3, "synth")), ("n=3,project", (3, "project")), ("n=96,synth", (96, "synth"))]
 
 
-@contract("metamodule_bindings_roundtrip", ["C15", "C02", "C01"], targets=_T + ["rv.modules.module:Module.load_cmid"], cases=_binding_cases)
+@contract("metamodule_bindings_roundtrip", ["C15", "C02", "C01", "C04"], targets=_T + ["rv.modules.module:Module.load_cmid"], cases=_binding_cases)
 def metamodule_bindings_roundtrip(H, case):
     """Controller MIDI bindings of the fixed AND of the exposed user-defined controllers survive."""
     n, ctx = case
@@ -203,4 +212,37 @@ def metamodule_bindings_roundtrip(H, case):
         p.attach_module(m)
         q = rw.read_back(H, rw.write_container(H, p)).modules[1]
     rw.check_midi_maps(H, m, q)
+    H.cover("reached")
+
+
+@contract("identical_metamodules_stay_independent", ["C15", "C17", "C06"], targets=_T, cases=lambda tier: [("project", "project"), ("nested", "nested")])
+def identical_metamodules_stay_independent(H, where):
+    """Two MetaModules with byte-identical embedded projects in one container (a project, or the
+    embedded project of an outer MetaModule): after loading, editing the embedded project of the first
+    and saving, the reloaded second one is unchanged and the first shows the edit."""
+    def make():
+        mm = MetaModule()
+        mm.project.new_module(Amplifier, name="inner amp")
+        return mm
+
+    p = Project()
+    if where == "project":
+        p.attach_module(make())
+        p.attach_module(make())
+        get = lambda proj: (proj.modules[1], proj.modules[2])  # noqa
+    else:
+        outer = MetaModule()
+        outer.project.attach_module(make())
+        outer.project.attach_module(make())
+        p.attach_module(outer)
+        get = lambda proj: (proj.modules[1].project.modules[1], proj.modules[1].project.modules[2])  # noqa
+    q = rw.read_back(H, rw.write_container(H, p))
+    a, b = get(q)
+    H.check("distinct_embedded_projects_after_load", a.project is not b.project)
+    v = H.int("new_volume", 0, 1024)
+    a.project.modules[1].controller_values["volume"] = v
+    r = rw.read_back(H, rw.write_container(H, q))
+    a2, b2 = get(r)
+    H.check("edited_embedded_project_saved", a2.project.modules[1].controller_values["volume"] == v)
+    H.check("other_embedded_project_unchanged", b2.project.modules[1].controller_values["volume"] == 256)
     H.cover("reached")
